@@ -311,8 +311,27 @@ Fixpoint before_auth (l : list ev) : list ev * list ev :=
   | e :: r => if authenticated_ev e then ([], l) else let (a, b) := before_auth r in (e :: a, b)
   end.
 
+(* the password the client actually sent: the packet after the startup packet
+   must be a complete 'p' message within the limit whose body starts with a C string *)
+Definition sent_password (sc : scase) : option bytes :=
+  match untyped (sc_limit sc) (sc_raw sc) with
+  | Some (_, t :: a :: b :: c :: d :: r) =>
+      let size := rd32 a b c d - 4 in
+      if (size <? 0) || (size >? eff_limit (sc_limit sc)) || negb (Byte.eqb t x70) then None
+      else match takeZ size r with
+           | Some (body, _) => match take_cstr body with Some (pw, _) => Some pw | None => None end
+           | None => None
+           end
+  | _ => None
+  end.
+
 Definition oracle_C01 (sc : scase) (log : list ev) : bool :=
   no_crash log &&
+  (* the validator only ever sees the password that was sent in a well-formed password message *)
+  forallb (fun e => match e with
+                    | CbValidate _ _ given =>
+                        match sent_password sc with Some pw => bytes_eqb pw given | None => false end
+                    | _ => true end) log &&
   match sc_auth sc with
   | None => true
   | Some (mode, pw) =>
@@ -639,8 +658,25 @@ Fixpoint in_order (seen sent : list bytes) : bool :=
          end) sent
   end.
 
+(* every (columns, requested format) pair of a statement that starts a COPY *)
+Definition copy_requests (sc : scase) : list (nat * Z) :=
+  flat_map (fun e => match snd e with
+                     | POk ss => flat_map (fun s => flat_map (fun o => match o with
+                                                                      | HCopyIn f => [(List.length (s_cols s), f)]
+                                                                      | _ => [] end) (s_prog s)) ss
+                     | PErr _ => []
+                     end) (sc_parse sc).
+
+Definition copyin_ok (sc : scase) (m : bmsg) : bool :=
+  match m with
+  | BCopyIn f cols =>
+      existsb (fun r => (f =? snd r mod 256) && Nat.eqb (List.length cols) (fst r) &&
+                        forallb (fun c => c =? snd r mod 65536) cols) (copy_requests sc)
+  | _ => true
+  end.
+
 Definition oracle_C13 (sc : scase) (log : list ev) : bool :=
-  no_crash log &&
+  no_crash log && forallb (copyin_ok sc) (outs log) &&
   match turns log with
   | _ :: ts =>
       copy_turns_ok (client_frames sc) ts &&
